@@ -525,14 +525,14 @@ Section Decode.
 
   Lemma tentries_ok c : bounded c -> Forall handle_ok (tentries c).
   Proof.
-    intros Hb. unfold tentries. repeat apply Forall_app; repeat split.
+    intros Hb. unfold tentries. rewrite !Forall_app. repeat split.
     - destruct (0 <? c_to_holder c); constructor; [|constructor].
       unfold handle_ok. cbn [fst snd]. intros i Hi. rewrite handle_to_remote by exact Hi.
       eexists. split; [reflexivity|]. reflexivity.
     - destruct (0 <? c_to_cp c); constructor; [|constructor].
       unfold handle_ok, p2wsh_entry. cbn [fst snd e_out e_ws]. intros i Hi. rewrite handle_to_local by exact Hi.
       eexists. split; [reflexivity|]. reflexivity.
-    - destruct ZF eqn:Hz; [|constructor]. apply Forall_app; split.
+    - destruct ZF eqn:Hz; [|constructor]. rewrite Forall_app. split.
       + destruct ((0 <? c_to_cp c) || has_htlcs c); constructor; [|constructor].
         unfold handle_ok, p2wsh_entry. cbn [fst snd e_out e_ws]. intros i.
         destruct (handle_anchor_out i (s_cp_funding s) Hz (wf_l_cpf W) (or_introl eq_refl)) as [i' [E [A1 [A2 [A3 A4]]]]].
@@ -603,9 +603,11 @@ Section Normalize.
     = match a, b with [], [] => true | _, _ => false end.
   Proof.
     destruct a as [|x a].
-    - cbn [sort_htlcs fold_right]. destruct b as [|y b]; [reflexivity|].
-      destruct (sort_htlcs (y :: b)) eqn:E; [|reflexivity]. apply sort_htlcs_nil in E. discriminate.
-    - destruct (sort_htlcs (x :: a)) eqn:E; [|reflexivity]. apply sort_htlcs_nil in E. discriminate.
+    - change (sort_htlcs []) with (@nil htlc). destruct b as [|y b]; [reflexivity|].
+      destruct (sort_htlcs (y :: b)) eqn:E; [|reflexivity].
+      apply (proj1 (sort_htlcs_nil _)) in E. discriminate.
+    - destruct (sort_htlcs (x :: a)) eqn:E; [|reflexivity].
+      apply (proj1 (sort_htlcs_nil _)) in E. discriminate.
   Qed.
 
   Lemma entries_normalize c :
@@ -728,7 +730,7 @@ Section Signing.
     assert (H0 : forall l, Forall (fun e => e_kind e = KPlain) l -> length (filter f l) = 0%nat).
     { induction 1 as [|e l He _ IH]; cbn [filter]; [reflexivity|]. unfold f at 1. rewrite He. exact IH. }
     rewrite !H0; [lia| | |].
-    - destruct (zf s); [|constructor]. apply Forall_app; split;
+    - destruct (zf s); [|constructor]. rewrite Forall_app. split;
         match goal with |- Forall _ (if ?b then _ else _) => destruct b end; repeat constructor.
     - destruct (0 <? c_to_cp c); repeat constructor.
     - destruct (0 <? c_to_holder c); [|constructor]. constructor; [|constructor].
